@@ -123,15 +123,42 @@ pub fn eval_bdd_dot(dot: &Dot, names: &[String], filter: &str) -> Result<(Tt, us
             return Err(format!("node {} declared twice", id));
         }
     }
-    for (leaf, text, keep) in [("n_true", "true", filter != "false"), ("n_false", "false", filter != "true")] {
-        if let Some(l) = decl.get(leaf) {
-            if *l != text {
-                return Err(format!("leaf {} labelled {:?}", leaf, l));
-            }
-            if !keep {
-                return Err(format!("leaf {} must be omitted under filter {}", leaf, filter));
-            }
+    // leaves are recognised by their LABEL (`true` / `false` are keywords, never variable names),
+    // not by a particular id scheme
+    let mut has_outgoing: HashSet<&str> = HashSet::new();
+    for (a, _, _) in &dot.edges {
+        has_outgoing.insert(a.as_str());
+    }
+    let is_leaf = |id: &str| -> Option<bool> {
+        if names.iter().any(|nm| nm == decl[id]) {
+            return None; // a variable that happens to be called true/false (only possible for API symbols)
         }
+        match decl[id] {
+            "true" => Some(true),
+            "false" => Some(false),
+            _ => None,
+        }
+    };
+    let mut true_leaves = 0;
+    let mut false_leaves = 0;
+    for (id, _) in &dot.nodes {
+        match is_leaf(id) {
+            Some(true) => true_leaves += 1,
+            Some(false) => false_leaves += 1,
+            None => {}
+        }
+        if is_leaf(id).is_some() && has_outgoing.contains(id.as_str()) {
+            return Err("edge leaving a leaf".into());
+        }
+    }
+    if true_leaves > 1 || false_leaves > 1 {
+        return Err("a leaf is declared more than once".into());
+    }
+    if filter == "false" && true_leaves > 0 {
+        return Err(format!("the true leaf must be omitted under filter {}", filter));
+    }
+    if filter == "true" && false_leaves > 0 {
+        return Err(format!("the false leaf must be omitted under filter {}", filter));
     }
     let mut t_edge: HashMap<&str, &str> = HashMap::new();
     let mut f_edge: HashMap<&str, &str> = HashMap::new();
@@ -143,9 +170,6 @@ pub fn eval_bdd_dot(dot: &Dot, names: &[String], filter: &str) -> Result<(Tt, us
         if !decl.contains_key(b.as_str()) {
             return Err(format!("edge to undeclared node {}", b));
         }
-        if a == "n_true" || a == "n_false" {
-            return Err("edge leaving a leaf".into());
-        }
         let m = match l.as_str() {
             "T" => &mut t_edge,
             "F" => &mut f_edge,
@@ -156,7 +180,7 @@ pub fn eval_bdd_dot(dot: &Dot, names: &[String], filter: &str) -> Result<(Tt, us
         }
         has_incoming.insert(b.as_str());
     }
-    let internal: Vec<&str> = dot.nodes.iter().map(|x| x.0.as_str()).filter(|id| *id != "n_true" && *id != "n_false").collect();
+    let internal: Vec<&str> = dot.nodes.iter().map(|x| x.0.as_str()).filter(|id| is_leaf(id).is_none()).collect();
     for id in &internal {
         let (t, f) = (t_edge.contains_key(id), f_edge.contains_key(id));
         match filter {
@@ -172,9 +196,11 @@ pub fn eval_bdd_dot(dot: &Dot, names: &[String], filter: &str) -> Result<(Tt, us
         "false" => Some(true),
         _ => None,
     };
+    #[allow(clippy::too_many_arguments)]
     fn go<'a>(
         id: &'a str,
         decl: &HashMap<&'a str, &'a str>,
+        leaf: &dyn Fn(&str) -> Option<bool>,
         t_edge: &HashMap<&'a str, &'a str>,
         f_edge: &HashMap<&'a str, &'a str>,
         names: &[String],
@@ -184,11 +210,8 @@ pub fn eval_bdd_dot(dot: &Dot, names: &[String], filter: &str) -> Result<(Tt, us
         path: &mut Vec<&'a str>,
         visited: &mut HashSet<&'a str>,
     ) -> Result<Tt, String> {
-        if id == "n_true" {
-            return Ok(Tt::constant(n, true));
-        }
-        if id == "n_false" {
-            return Ok(Tt::constant(n, false));
+        if let Some(b) = leaf(id) {
+            return Ok(Tt::constant(n, b));
         }
         if let Some(t) = memo.get(id) {
             return Ok(t.clone());
@@ -202,7 +225,7 @@ pub fn eval_bdd_dot(dot: &Dot, names: &[String], filter: &str) -> Result<(Tt, us
         let i = names.iter().position(|x| x == label).ok_or_else(|| format!("test node labelled {:?}, not a variable of the diagram", label))? as u32;
         let mut branch = |m: &HashMap<&'a str, &'a str>, memo: &mut HashMap<&'a str, Tt>, path: &mut Vec<&'a str>, visited: &mut HashSet<&'a str>| -> Result<Tt, String> {
             match m.get(id) {
-                Some(next) => go(next, decl, t_edge, f_edge, names, n, omitted, memo, path, visited),
+                Some(next) => go(next, decl, leaf, t_edge, f_edge, names, n, omitted, memo, path, visited),
                 None => match omitted {
                     Some(b) => Ok(Tt::constant(n, b)),
                     None => Err(format!("node {} lacks an edge", id)),
@@ -219,27 +242,26 @@ pub fn eval_bdd_dot(dot: &Dot, names: &[String], filter: &str) -> Result<(Tt, us
     let mut visited = HashSet::new();
     let table = if internal.is_empty() {
         // a constant: exactly the kept leaf may be declared
-        let leaves: Vec<&str> = dot.nodes.iter().map(|x| x.0.as_str()).collect();
-        match (leaves.as_slice(), omitted) {
-            ([], Some(b)) => Tt::constant(n, b),
-            (["n_true"], _) => Tt::constant(n, true),
-            (["n_false"], _) => Tt::constant(n, false),
-            _ => return Err(format!("constant diagram declares {:?}", leaves)),
+        match (true_leaves, false_leaves, omitted) {
+            (0, 0, Some(b)) => Tt::constant(n, b),
+            (1, 0, _) => Tt::constant(n, true),
+            (0, 1, _) => Tt::constant(n, false),
+            _ => return Err(format!("constant diagram declares {:?}", dot.nodes.iter().map(|x| x.0.as_str()).collect::<Vec<_>>())),
         }
     } else {
         if roots.len() != 1 {
             return Err(format!("{} root nodes (nodes without incoming edge)", roots.len()));
         }
-        go(roots[0], &decl, &t_edge, &f_edge, names, n, omitted, &mut HashMap::new(), &mut Vec::new(), &mut visited)?
+        go(roots[0], &decl, &is_leaf, &t_edge, &f_edge, names, n, omitted, &mut HashMap::new(), &mut Vec::new(), &mut visited)?
     };
     if visited.len() != internal.len() {
         return Err("declared node not reachable from the root".into());
     }
     // a declared leaf must be the target of some edge (unless the diagram is that leaf)
     if !internal.is_empty() {
-        for leaf in ["n_true", "n_false"] {
-            if decl.contains_key(leaf) && !has_incoming.contains(leaf) {
-                return Err(format!("leaf {} declared but never referenced", leaf));
+        for (id, _) in &dot.nodes {
+            if is_leaf(id).is_some() && !has_incoming.contains(id.as_str()) {
+                return Err(format!("leaf {} declared but never referenced", id));
             }
         }
     }
